@@ -187,3 +187,18 @@ Proof.
   - apply (eq_at_nyquist HighShelf).
   - apply (eq_at_dc HighShelf); assumption.
 Qed.
+
+(** the hypotheses of the response theorems are satisfiable: 1 kHz at 48 kHz probed at 100 Hz *)
+Example response_hypotheses_satisfiable :
+  (0 < 48000)%R /\ (lit_1e4 <= 1000 / 48000 < lit_half)%R /\ cos (PI * 100 / 48000) <> 0%R /\
+  (1 + prewarp 1000 48000 * (prewarp 1000 48000 + filter_k (1 / 2)) <> 0)%R /\
+  svfD (prewarp 1000 48000) (filter_k (1 / 2)) (cis (omega 100 48000)) <> RtoC 0.
+Proof.
+  assert (Hf : (0 < 1000 / 48000 < 1 / 2)%R) by lra.
+  destruct (prewarp_corner 1000 48000 ltac:(lra) Hf) as (Hg & _).
+  pose proof (filter_k_range (1 / 2)) as Hk.
+  split; [lra|]. split; [unfold lit_1e4, lit_half; lra|]. split; [|split].
+  - pose proof PI_RGT_0. assert (0 < cos (PI * 100 / 48000))%R by (apply cos_gt_0; lra). lra.
+  - apply den_pos; lra.
+  - apply svfD_on_circle; lra.
+Qed.
